@@ -374,6 +374,30 @@ class Check:
         if o.get('using') and ob['id'].split('#')[0] in o['using']:
             pass
         names = [nm for nm, _ in order]
+        # Attempts with a reduced hypothesis set (dropping hypotheses is sound for an `unsat` verdict) and with
+        # non-linear products abstracted to free constants (sound over-approximation): proof scripts put the
+        # relevant lemma right before the goal, so the last few atoms usually suffice and close instantly.
+        if o.get('abstract_first', True):
+            tried = set()
+            for kctx in o.get('contexts', (3, 8, 20, None)):
+                sub = pc if kctx is None or kctx >= len(pc) else pc[-kctx:]
+                key = len(sub)
+                if key in tried:
+                    continue
+                tried.add(key)
+                ascript, agroups, apr = solver.build_script(sub + [neg_goal], o, abstract=True)
+                if ascript is not None and apr.abstracted:
+                    ares, aout, adt = solver.run_solver(ascript, 'z3', o.get('abstract_timeout', 2))
+                    if ares == 'unsat':
+                        s.stats['abstract_unsat'] = s.stats.get('abstract_unsat', 0) + 1
+                        return {'result': 'unsat', 'solver': 'z3 (non-linear terms abstracted, last %s hypotheses)' % (kctx or 'all'), 'time': round(adt, 3), 'axioms': agroups}
+                if kctx is not None and kctx < len(pc):
+                    cscript, cgroups, cpr = solver.build_script(sub + [neg_goal], o)
+                    if cscript is not None:
+                        cres, cout, cdt = solver.run_solver(cscript, 'z3', o.get('focus_timeout', 3))
+                        if cres == 'unsat':
+                            s.stats['focused_unsat'] = s.stats.get('focused_unsat', 0) + 1
+                            return {'result': 'unsat', 'solver': 'z3 (last %d hypotheses)' % kctx, 'time': round(cdt, 3), 'axioms': cgroups}
         script, groups, pr = solver.build_script(pc + [neg_goal], o, want_model=names)
         if script is None:
             return {'result': 'unsat', 'solver': 'trivial', 'time': 0.0, 'trivial': True}
@@ -702,7 +726,7 @@ class Check:
                 'traces_validated_against_impl': s.stats['validated'],
                 'samples': s.samples or [{'note': 'no non-trivial obligation sampled'}],
                 'obligations': s.stats['obligations'], 'discharged': s.stats['discharged'],
-                'discharged_trivially_equal_terms': s.stats['trivial'],
+                'discharged_trivially_equal_terms': s.stats['trivial'], 'discharged_with_nonlinear_terms_abstracted': s.stats.get('abstract_unsat', 0), 'discharged_with_reduced_hypotheses': s.stats.get('focused_unsat', 0),
                 'stretch_attempted': s.stats['stretch_attempted'], 'stretch_discharged': s.stats['stretch_discharged'],
                 'paths': s.stats['paths'], 'forks': s.stats['forks'], 'forks_pruned_infeasible': s.stats['pruned'], 'mir_statements_executed': s.stats['stmts'],
                 'reachability_witnesses': s.stats['covers'], 'fork_feasibility_queries': s.stats['feas_queries'],
